@@ -352,9 +352,9 @@ impl<T: SerializableType> SmartPtrSerialize<T> for RcWeak<T> {
         let marker = input.read_u8()?;
         match marker {
             0 => {
-                // Dangling weak reference - create a weak that will never upgrade
-                let dummy = Rc::new(T::deserialize(input)?);
-                Ok(Rc::downgrade(&dummy))
+                // Dangling weak reference: the encoder wrote nothing after the marker,
+                // so nothing more may be read here.
+                Ok(RcWeak::new())
             }
             1 => {
                 // Valid weak reference
@@ -393,9 +393,9 @@ impl<T: SerializableType + Send + Sync> SmartPtrSerialize<T> for ArcWeak<T> {
         let marker = input.read_u8()?;
         match marker {
             0 => {
-                // Dangling weak reference - create a weak that will never upgrade
-                let dummy = Arc::new(T::deserialize(input)?);
-                Ok(Arc::downgrade(&dummy))
+                // Dangling weak reference: the encoder wrote nothing after the marker,
+                // so nothing more may be read here.
+                Ok(ArcWeak::new())
             }
             1 => {
                 // Valid weak reference
